@@ -1117,9 +1117,6 @@ func (fr *Frame) specFold(fd *Fold, c *ECall, env *SpecEnv) Val {
 		hi := fr.scalar(fr.evalSpec(c.Args[np+1], env))
 		return fr.foldCore(fd, c.Args[:np], env, foldShape{keyOf: func(j string) string { return j }, keyTyp: tInt, lo: lo, hi: hi})
 	}
-	if fd.Op == "mulmod" {
-		return fr.specErr("mapfold %s: mulmod is not order-independent", fd.Name)
-	}
 	seqShape := func(it string, info mapIterInfo) foldShape {
 		fc.regVar(hIterN, arrSort("Int"))
 		return foldShape{suffix: "_seq", extra: []string{it}, keyTyp: info.mt.Underlying().(*types.Map).Key(),
@@ -1156,7 +1153,7 @@ func (fr *Frame) specFold(fd *Fold, c *ECall, env *SpecEnv) Val {
 		if !fc.declSet[key] {
 			fc.declSet[key] = true
 			fc.decls = append(fc.decls, fmt.Sprintf("(declare-fun %s (%s %s (Array Int Bool)) Int)", fname, strings.Join(sorts, " "), strings.TrimSpace(strings.Repeat("Int ", np+1))))
-			fc.trusted["spec mapfold "+fd.Name+": "+fd.Src+" (a map range hands out every key of an unmodified map exactly once; integer sums and products do not depend on the order)"] = true
+			fc.trusted["spec mapfold "+fd.Name+": "+fd.Src+" (a map range hands out every key of an unmodified map exactly once; integer sums and products, also products reduced modulo m at every step, do not depend on the order)"] = true
 		}
 		all := append(append([]string{}, hterms...), argTerms...)
 		t := sApp(fname, append(all, m, prow)...)
